@@ -31,7 +31,8 @@ def sh(cmd, cwd=None, env=None, timeout=3600):
 
 def tests(dst):
     rc, out = sh('%s -m pytest -q -p no:cacheprovider --timeout=900 2>&1 | tail -1' % PY, cwd=dst)
-    return out.strip()
+    import re
+    return re.sub(r' in [0-9.]+s.*$', '', out.strip())
 
 
 def main():
